@@ -1,6 +1,8 @@
 package dawn
 
 import (
+	"crypto/sha256"
+	"encoding/hex"
 	"encoding/json"
 	"fmt"
 	"io"
@@ -409,6 +411,18 @@ type targetInfo struct {
 	Data         string            `json:"stamp,omitempty"`
 	Rerun        bool              `json:"rerun,omitempty"`
 	Runs         uint64            `json:"runs,omitempty"`
+
+	// Sum is a checksum of the other fields. A record is a few hundred bytes of text, and a
+	// damaged one can still be well-formed: a changed byte inside the stamp may decode to
+	// exactly the environment the target has now, and the target would be skipped.
+	Sum string `json:"sum,omitempty"`
+}
+
+func (info targetInfo) checksum() string {
+	info.Sum = ""
+	b, _ := json.Marshal(info)
+	sum := sha256.Sum256(b)
+	return hex.EncodeToString(sum[:])
 }
 
 func (proj *Project) targetInfoPath(l *label.Label) string {
@@ -441,6 +455,14 @@ func (proj *Project) loadTargetInfo(label *label.Label) (targetInfo, error) {
 	if err := json.NewDecoder(f).Decode(&info); err != nil {
 		return targetInfo{}, err
 	}
+	if info.Sum == "" {
+		// Written before records carried a checksum (or no longer carrying one): not to be
+		// trusted, so the target is treated as never run.
+		return targetInfo{}, nil
+	}
+	if info.Sum != info.checksum() {
+		return targetInfo{}, fmt.Errorf("%v: checksum mismatch: the record is damaged", path)
+	}
 	return info, nil
 }
 
@@ -457,6 +479,7 @@ func (proj *Project) saveTargetInfo(label *label.Label, info targetInfo) error {
 	}
 	tempName := f.Name()
 
+	info.Sum = info.checksum()
 	if err = json.NewEncoder(f).Encode(info); err != nil {
 		return err
 	}
